@@ -348,6 +348,55 @@ pub fn walks(adj: &Adj, s: usize, t: usize, lo: usize, hi: usize, cycles: bool, 
     st.out
 }
 
+/// All simple paths (no node repeats, `s` counts as visited) that start at `s` and have max(lo,1)..=hi hops,
+/// whatever their end node. None when the expansion budget is exhausted.
+pub fn simple_paths_from(adj: &Adj, s: usize, lo: usize, hi: usize, budget: usize) -> Option<Vec<NodeEdgePath>> {
+    struct St<'a> {
+        adj: &'a Adj,
+        lo: usize,
+        hi: usize,
+        budget: usize,
+        used: usize,
+        nodes: Vec<usize>,
+        edges: Vec<usize>,
+        visited: Vec<bool>,
+        out: Vec<NodeEdgePath>,
+    }
+    fn rec(st: &mut St, u: usize) -> bool {
+        if st.used >= st.budget {
+            return false;
+        }
+        st.used += 1;
+        for i in 0..st.adj[u].len() {
+            let a = st.adj[u][i];
+            if st.visited[a.to] {
+                continue;
+            }
+            st.nodes.push(a.to);
+            st.edges.push(a.e);
+            st.visited[a.to] = true;
+            let depth = st.edges.len();
+            if depth >= st.lo {
+                st.out.push((st.nodes.clone(), st.edges.clone()));
+            }
+            let ok = depth >= st.hi || rec(st, a.to);
+            st.nodes.pop();
+            st.edges.pop();
+            st.visited[a.to] = false;
+            if !ok {
+                return false;
+            }
+        }
+        true
+    }
+    let mut st = St { adj, lo: lo.max(1), hi, budget, used: 0, nodes: vec![s], edges: Vec::new(), visited: vec![false; adj.len()], out: Vec::new() };
+    st.visited[s] = true;
+    if hi >= 1 && hi >= st.lo && !rec(&mut st, s) {
+        return None;
+    }
+    Some(st.out)
+}
+
 /// Is there a simple s->t path with more than `more_than` hops? Budgeted DFS; None = undecided.
 pub fn longer_simple_path_exists(adj: &Adj, s: usize, t: usize, more_than: usize, enter: &dyn Fn(usize) -> bool, budget: usize) -> Option<bool> {
     // prune with reachability to t
